@@ -32,6 +32,11 @@ pub struct Cfg {
     /// distinct values is within the rule's capacity and no bucket may have been dropped
     #[serde(default)]
     pub script_capacity: Option<usize>,
+    /// keyed, with the companion rule: BOTH rules limit (same q, b, d) and every request carries
+    /// only ONE of the two parameters (values A, B belong to the first rule's key, C, D to the
+    /// second's): a request that lacks one rule's parameter is still judged by the other rule
+    #[serde(default)]
+    pub solo: bool,
 }
 
 #[derive(Clone, Debug)]
@@ -120,7 +125,7 @@ fn companion_of(cfg: &Cfg, threshold: u64) -> Arc<hotspot::Rule> {
 fn rule_set(cfg: &Cfg, bump: u64, concurrency: bool) -> Vec<Arc<hotspot::Rule>> {
     let mut v = vec![rule_of(cfg, cfg.q + bump, &cfg.overrides)];
     if cfg.companion {
-        v.push(companion_of(cfg, 1_000_000 + bump));
+        v.push(companion_of(cfg, if cfg.solo { cfg.q + bump } else { 1_000_000 + bump }));
     }
     if concurrency {
         v = v
@@ -250,7 +255,12 @@ impl Subject for C06 {
         if expect && before.started && t - before.last_fill > self.cfg.d * 1000 {
             self.refills += 1;
         }
-        let (args, att) = if self.cfg.keyed {
+        let second_rule = self.cfg.solo && matches!(*value, "C" | "D");
+        let (args, att) = if self.cfg.solo {
+            let mut m: ParamsMap = HashMap::new();
+            m.insert(if second_rule { "k2" } else { "k" }.into(), value.to_string());
+            (None, Some(m))
+        } else if self.cfg.keyed {
             let mut m: ParamsMap = HashMap::new();
             m.insert("k".into(), value.to_string());
             if self.cfg.companion {
@@ -267,7 +277,7 @@ impl Subject for C06 {
         match r {
             Built::Ok(e) => self.keep.push(e),
             Built::Blocked(b, _) => {
-                if b.block_type != "HotSpotParamFlow" || b.rule_id.as_deref() != Some("h0") {
+                if b.block_type != "HotSpotParamFlow" || b.rule_id.as_deref() != Some(if second_rule { "h1" } else { "h0" }) {
                     return Err(format!("block-report: {} naming {:?}", b.block_type, b.rule_id));
                 }
             }
@@ -307,7 +317,7 @@ impl Subject for C06 {
                 }
             }
         }
-        if self.cfg.script_capacity.is_some() {
+        if self.cfg.script_capacity.is_some() || self.cfg.solo {
             return Ok(());
         }
         // (3)+(4) no cross-talk, overrides replace q for that value only: the decisions for value v
@@ -360,7 +370,7 @@ pub fn configs(thorough: bool) -> Vec<Cfg> {
                         if !thorough && k % 5 != 0 {
                             continue;
                         }
-                        let base = Cfg { q, b, d, overrides: overrides.clone(), keyed, phase: [0, 1, 499, 999][(k % 4) as usize], companion: false, retuned: 0, script_capacity: None };
+                        let base = Cfg { q, b, d, overrides: overrides.clone(), keyed, phase: [0, 1, 499, 999][(k % 4) as usize], companion: false, retuned: 0, script_capacity: None, solo: false };
                         v.push(base.clone());
                         // variants: a companion rule sharing the value strings, and two-step loads
                         // the companion + two-step variant (0) is given to every second configuration
@@ -378,13 +388,17 @@ pub fn configs(thorough: bool) -> Vec<Cfg> {
             }
         }
     }
+    // both rules limiting, every request carrying one parameter only
+    for (q, b, d) in [(1u64, 0u64, 1u64), (2, 1, 2), (1, 1, 3)] {
+        v.push(Cfg { q, b, d, overrides: vec![], keyed: true, phase: 0, companion: true, retuned: 0, script_capacity: None, solo: true });
+    }
     // scripted capacity histories: small, just above the default ceiling of 20 000, and larger
     for c in [3usize, 50, 20_001, 25_000] {
         for keyed in [false, true] {
             if keyed && c > 50 {
                 continue;
             }
-            v.push(Cfg { q: 1, b: 0, d: 3, overrides: vec![], keyed, phase: 0, companion: false, retuned: 0, script_capacity: Some(c) });
+            v.push(Cfg { q: 1, b: 0, d: 3, overrides: vec![], keyed, phase: 0, companion: false, retuned: 0, script_capacity: Some(c), solo: false });
         }
     }
     v
